@@ -42,7 +42,8 @@ LEVEL_NOTE = ("Trusted: mc/irinterp.py + mc/refsem.py, mc/irgen.py. Memory is on
               "out of the alphabet). Runs exceeding the fuel bound in the original graph are skipped and counted.")
 TECHNIQUE = "bounded-exhaustive enumeration of IR graphs through propagate_cst_expr; reference-interpreter differential"
 ASSUMPTIONS = ["at entry every register holds the value of its *_init identifier (the analysis' init_infos)",
-               "memory is accessed through the stack pointer only (no aliasing between pointer bases)"]
+               "within one graph memory is accessed through one pointer base only: the stack pointer, or (three templates) the "
+               "unmodified register a (no aliasing between pointer bases)"]
 
 ALPHA_FULL = ["a=0", "a=2", "b=1", "a=b", "a=a+1", "r=a", "c=a+b", "@[sp+4]=a", "@[sp+4]=b", "a=@[sp+4]", "b=@[sp+4]",
               "@[sp+8]=1", "b=@[sp+8]", "@8[sp+5]=a", "sp=sp-4", "sp=sp+4"]
@@ -286,6 +287,15 @@ TEMPLATES = [
      [[()], [("a=0",)], [("a=2",), ("a=0",)], _SSR], ["b", None, None, None], "traversal"),
     ("save-scratch-restore-after-a-triangle", ((1, 2), (2,), ()),
      [[("a=0",), ()], [("a=2",)], _SSR], ["b", None, None], "traversal"),
+    # one symbolic base (register a, never modified): a constant stored at base+0, a wider store at a negative displacement
+    # whose bytes cross offset 0 of the base, a reload of the overwritten cells used afterwards; block boundaries in between
+    ("store-straddling-offset-0-of-its-base/two-blocks", ((1,), ()),
+     [[("@[a]=5",), ("@[a]=5", "@[a-3]=b"), ("@[a]=5", "@[a-2]=b")],
+      [("@[a-3]=b", "c=@[a]", "r=c+1"), ("@[a-2]=b", "c=@[a]", "r=c+1"), ("c=@[a]", "r=c+1")]], [None, None], "traversal"),
+    ("store-straddling-offset-0-of-its-base/three-blocks", ((1,), (2,), ()),
+     [[("@[a]=5",)], [("@[a-3]=b",), ("@[a-2]=b",), ()], [("c=@[a]", "r=c+1")]], [None, None, None], "traversal"),
+    ("store-straddling-offset-0-of-its-base/in-one-arm", ((1, 2), (2,), ()),
+     [[("@[a]=5",)], [("@[a-3]=b",), ("@[a-2]=b",)], [("c=@[a]", "r=c+1")]], ["b", None, None], "traversal"),
     ("save-scratch-restore-behind-a-loop-head", ((1,), (1, 2), ()),
      [[(), ("a=0",)], [x + ("a=a+1",) for x in _SSR], [(), ("r=a",)]], [None, "a", None], "traversal"),
 ]
@@ -339,7 +349,8 @@ def check_template(ti, body_choice, order):
     name, shape, alts, cond_names = TEMPLATES[ti][:4]
     body_names = [list(alts[i][body_choice[i]]) for i in range(len(shape))]
     case = {"kind": "template", "template": ti, "name": name, "choice": list(body_choice), "order": list(order)}
-    return check_named(shape, body_names, cond_names, order, case, tag=":" + ("late-weaker-edge" if TEMPLATES[ti][4] == "permutations" else "save-scratch-restore"))
+    return check_named(shape, body_names, cond_names, order, case, tag=":" + ("late-weaker-edge" if TEMPLATES[ti][4] == "permutations" else
+                                   "store-straddling-base" if TEMPLATES[ti][0].startswith("store-straddling") else "save-scratch-restore"))
 
 
 def check_x86(idx):
